@@ -14,6 +14,7 @@ from .calls import CallMixin
 from .spec import SpecMixin
 from .builtins import BuiltinMixin
 from .witness import WitnessMixin
+from .fsmodel import FsMixin, p_under
 
 REPO = os.environ.get("VERIF_REPO", "/repo")
 SRC = "src/experimaestro"
@@ -71,7 +72,7 @@ def decorators(fn):
     return out
 
 
-class Engine(ExprMixin, StmtMixin, CallMixin, SpecMixin, BuiltinMixin, WitnessMixin):
+class Engine(FsMixin, ExprMixin, StmtMixin, CallMixin, SpecMixin, BuiltinMixin, WitnessMixin):
     def __init__(self, reg: Registry, source: Source = None, prop=None):
         self.reg = reg
         self.src = source or Source()
@@ -84,6 +85,10 @@ class Engine(ExprMixin, StmtMixin, CallMixin, SpecMixin, BuiltinMixin, WitnessMi
         self.interference = None
         self.frontier = z3.Int("FRONTIER")
         self.frontier_blocks = []
+        self.glob_hooks = []
+        self.fs_write_hooks = []
+        self.extra_axioms = []
+        self._fresh_range = None
         self._parse_cache = {}
         self._spec_ctx = None
         self.spec_depth = 0
@@ -101,6 +106,7 @@ class Engine(ExprMixin, StmtMixin, CallMixin, SpecMixin, BuiltinMixin, WitnessMi
         self.undecided_paths = []
         self.dropped = set()
         self.comp_info = {}
+        self.glob_results = []
         self.sorted_info = {}
         self.nstmts = self.nfeas = self.nawaits = 0
         self.entry_state = None
@@ -156,8 +162,11 @@ class Engine(ExprMixin, StmtMixin, CallMixin, SpecMixin, BuiltinMixin, WitnessMi
         o = z3.Int("o!pre")
         for f in c.get("ref_fields", []):
             arr = st.field(f)
-            st.assume(z3.ForAll([o], z3.Implies(Val.is_RefV(z3.Select(arr, o)), Val.r(z3.Select(arr, o)) < self.frontier), patterns=[z3.Select(arr, o)]))
+            st.assume(qforall([o], z3.Implies(Val.is_RefV(z3.Select(arr, o)), Val.r(z3.Select(arr, o)) < self.frontier), patterns=[z3.Select(arr, o)]))
         st.assume(self.frontier > 0)
+        st.front = self.frontier
+        for ax in self.extra_axioms:
+            st.assume(ax)
         return st, binds
 
     def verify(self, key, name=None):
@@ -196,6 +205,14 @@ class Engine(ExprMixin, StmtMixin, CallMixin, SpecMixin, BuiltinMixin, WitnessMi
             self.check_outcome(c, key, entry, binds, r)
             kk = r.kind if r.kind != "raise" else "raise:" + str(r.exc)
             kinds[kk] = kinds.get(kk, 0) + 1
+        # the pre-state heap only holds objects allocated before the call
+        fields = set()
+        for ob in self.obligations:
+            fields |= ob.st.reads
+        for f in sorted(fields):
+            fact = self.alloc_axiom(None, f, z3.Const("H0_" + f, field_sort(f)), self.frontier)
+            if fact is not None:
+                self.global_facts.append(fact)
         for ob in self.obligations:
             have = {f.get_id() for f in ob.pc}
             ob.pc += [f for f in self.global_facts if f.get_id() not in have]
@@ -262,10 +279,15 @@ class Engine(ExprMixin, StmtMixin, CallMixin, SpecMixin, BuiltinMixin, WitnessMi
                 allowed[m[2:]] = None
             elif m.startswith("elems(") or m.startswith("dict("):
                 obj = self.spec_v(entry, entry, m[m.index("(") + 1:-1], binds)
-                for f in (["$elems"] if m.startswith("elems(") else ["$dkeys", "$dmap"]):
+                for f in (["$elems"] if m.startswith("elems(") else ["$dkeys", "$dmap", "$dhas"]):
                     if f not in allowed or allowed[f] is not None:
                         allowed.setdefault(f, []).append(obj)
-            elif m.startswith("fs"):
+            elif m.startswith("fs(") or m.startswith("fs_tree("):
+                pv = self.spec_v(entry, entry, m[m.index("(") + 1:-1], binds)
+                for f in ("$fs_kind", "$fs_text", "$fs_target"):
+                    if f not in allowed or allowed[f] is not None:
+                        allowed.setdefault(f, []).append(("tree" if m.startswith("fs_tree(") else "path", Val.p(pv.t)))
+            elif m == "fs":
                 for f in ("$fs_kind", "$fs_text", "$fs_target"):
                     allowed[f] = None
             else:
@@ -279,10 +301,16 @@ class Engine(ExprMixin, StmtMixin, CallMixin, SpecMixin, BuiltinMixin, WitnessMi
                 continue
             if f in allowed and allowed[f] is None:
                 continue
+            if f.startswith("$fs_"):
+                q = z3.Const("q!frame", PathS)
+                exc = [(q != p) if k == "path" else z3.Not(p_under(q, p)) for k, p in allowed.get(f, [])]
+                goal = qforall([q], z3.Implies(z3.And(*exc) if exc else z3.BoolVal(True), z3.Select(st.heap[f], q) == z3.Select(entry.field(f), q)))
+                self.oblige(f"frame {key}: filesystem unchanged outside {[clause_text(m) for m in mods if clause_text(m).startswith('fs')]} ({f})", "frame", goal, st)
+                continue
             if not z3.is_array(st.heap[f]) or st.heap[f].sort().domain() != Int:
                 self.oblige(f"frame {key}: {f} unchanged", "frame", st.heap[f] == entry.field(f), st)
                 continue
             o = z3.Int("o!frame")
             exc = [o != Val.r(x.t) for x in allowed.get(f, [])]
-            goal = z3.ForAll([o], z3.Implies(z3.And(o < self.frontier, *exc), z3.Select(st.heap[f], o) == z3.Select(entry.field(f), o)))
+            goal = qforall([o], z3.Implies(z3.And(o < self.frontier, *exc), z3.Select(st.heap[f], o) == z3.Select(entry.field(f), o)))
             self.oblige(f"frame {key}: only {[clause_text(m) for m in mods]} may change (field {f})", "frame", goal, st)
